@@ -77,13 +77,17 @@ def run(ctx):
         sc["confs"] = flip_confs(base)
         scenarios.append(sc)
     # discrete learning curves: integer values (pairwise distinct), where "equal to the interpolated percentile" happens
-    coarse = [(s, p) for s in ("random", "tpe") for p in ("median", "pct25", "pct75", "patient_median", "sha", "hyperband")]
+    coarse = [(s, p) for s in ("random", "tpe")
+              for p in ("median", "pct25", "pct75", "patient_median", "patient_delta", "sha", "hyperband", "threshold")]
     n_coarse = 0
     for rep in range(2 if ctx.quick else 12):
         for s, p in coarse:
             sc = c09.make_scenario(ctx.rng, f"mc{n_coarse}", s, p, 1, ctx.rng.choice([12, 14, 16]), exact=True)
             sc["prog"]["coarse"] = True
             sc["prog"]["fail_mod"] = 0
+            if rep % 2 == 1:
+                sc["prog"]["nan_mod"] = ctx.rng.choice([3, 4, 5])      # some reported values are NaN
+                sc["prog"]["reports"] = max(sc["prog"]["reports"], 4)
             sc["confs"] = flip_confs([ctx.rng.choice(["minimize", "maximize"])])
             scenarios.append(sc)
             n_coarse += 1
